@@ -1,14 +1,17 @@
 #!/bin/bash
-# Unbounded (inductive) check of the typed core spec/apalache/TaskLeaseCore.tla with Apalache:
-#   Init => IndInv ; IndInv /\ Next => IndInv' ; IndInv => C07_Fencing.
-# Supplementary to the TLC checks of C07 (not a registered check: it says nothing about the code,
-# it lifts the bound of MC_A_task on counters, clock and number of claims).  exit 0 all three hold.
+# Unbounded (inductive) check of the typed cores spec/apalache/{TaskLeaseCore,LockLeaseCore}.tla with Apalache:
+#   Init => IndInv ; IndInv /\ Next => IndInv' ; IndInv => C07_Fencing / C09_Lease.
+# Supplementary to the TLC checks of C07 and C09 (not a registered check: it says nothing about the code,
+# it lifts the bounds of MC_A_task / MC_A_lock on counters, clock and number of claims).  exit 0 all three hold.
 V=${VERIF_HOME:-/verif}
 W=$(mktemp -d /dev/shm/apa.XXXX); trap 'rm -rf $W' EXIT
-cp $V/spec/apalache/TaskLeaseCore.tla $W/; cd $W
+cp $V/spec/apalache/*.tla $W/; cd $W
 rc=0
-run() { out=$(timeout 600 apalache-mc check --cinit=CInit "$@" TaskLeaseCore.tla 2>&1); echo "$out" | grep -q "EXITCODE: OK" && echo "OK   $*" || { echo "FAIL $*"; echo "$out" | tail -20; rc=1; }; }
-run --init=Init --inv=IndInv --length=0
-run --init=IndInit --inv=IndInv --length=1
-run --init=IndInit --inv=C07_Fencing --length=0
+run() { m=$1; shift; out=$(timeout 600 apalache-mc check --cinit=CInit "$@" $m.tla 2>&1); echo "$out" | grep -q "EXITCODE: OK" && echo "OK   $m $*" || { echo "FAIL $m $*"; echo "$out" | tail -20; rc=1; }; }
+run TaskLeaseCore --init=Init --inv=IndInv --length=0
+run TaskLeaseCore --init=IndInit --inv=IndInv --length=1
+run TaskLeaseCore --init=IndInit --inv=C07_Fencing --length=0
+run LockLeaseCore --init=Init --inv=IndInv --length=0
+run LockLeaseCore --init=IndInit --inv=IndInv --length=1
+run LockLeaseCore --init=IndInit --inv=C09_Lease --length=0
 exit $rc
